@@ -142,12 +142,17 @@ pub(crate) fn no_time_wait(s: &tokio::net::TcpStream) {
 
 #[cfg(test)]
 fn port_shortage(e: &std::io::Error) -> bool {
-    matches!(e.kind(), std::io::ErrorKind::AddrInUse | std::io::ErrorKind::AddrNotAvailable)
+    matches!(
+        e.kind(),
+        std::io::ErrorKind::AddrInUse | std::io::ErrorKind::AddrNotAvailable
+    )
 }
 
 /// `TcpListener::bind(addr)` that waits out a temporary shortage of ephemeral ports.
 #[cfg(test)]
-pub(crate) async fn bind_retry(addr: std::net::SocketAddr) -> std::io::Result<tokio::net::TcpListener> {
+pub(crate) async fn bind_retry(
+    addr: std::net::SocketAddr,
+) -> std::io::Result<tokio::net::TcpListener> {
     let mut last = None;
     for _ in 0..200 {
         match tokio::net::TcpListener::bind(addr).await {
@@ -165,7 +170,9 @@ pub(crate) async fn bind_retry(addr: std::net::SocketAddr) -> std::io::Result<to
 /// `TcpStream::connect(addr)` that waits out a temporary shortage of ephemeral ports;
 /// the returned stream is already set to close without TIME_WAIT.
 #[cfg(test)]
-pub(crate) async fn connect_retry(addr: std::net::SocketAddr) -> std::io::Result<tokio::net::TcpStream> {
+pub(crate) async fn connect_retry(
+    addr: std::net::SocketAddr,
+) -> std::io::Result<tokio::net::TcpStream> {
     let mut last = None;
     for _ in 0..200 {
         match tokio::net::TcpStream::connect(addr).await {
